@@ -456,3 +456,23 @@ PROPS["C15"] = Prop(
     technique="runtime monitor: per-PU coverage reference model checked after every call, under gcc ASan+UBSan+LSan",
     level_text="exploration: random register/restrict/dup/XML histories against a per-PU coverage model, all kinds and probe queries checked after every call",
 )
+
+
+PROPS["C16"] = Prop(
+    "C16",
+    [Stage("asan", "c16_diff", "asan", quick=5000, thorough=100000, per_worker_env=xml_backend_env)],
+    rule=("pairs (A, B): A = synthetic or corpus topology annotated with names, duplicate info pairs, topology infos, distances, memattrs, cpukinds; "
+          "B = dup(A) + 0-6 representable edits (rename, info value incl. values equal to another pair of the same object, NUMA local memory with "
+          "total_memory, topology info value) and, in 1/4 of the cases, one non-representable edit (add/remove info, Misc, restrict, subtype, name "
+          "set<->unset, distances, memattr, cpukind, topology info added). Oracle: diff_build return value and TOO_COMPLEX presence against the edit "
+          "labels (an info change whose (name, value) also matches an earlier pair of the same array is labelled non-addressable); NULL iff nothing "
+          "differs; apply on a copy of A == B on names/infos/memory (canonical dump) and diff_build(copy, B) empty; APPLY_REVERSE restores A "
+          "(full dump); diff XML export/load returns an identical list and refname; rollback: the entries of the diff plus chained entries on the "
+          "same attribute plus one failing entry (6 kinds) at position N: return value == -N and full dump unchanged. "
+          "distinct+non-trivial = class 1: pairs with >= 2 representable edits or a non-representable one, keyed by (edit kinds, count, shape)"),
+    nontrivial_classes=[1], floor=100,
+    assumptions=COMMON_ASSUME + ["hand-built diff entries carry non-NULL strings", "B is edited by writing the public object fields a diff addresses (name, info value, local_memory/total_memory), "
+                                 "since no API modifies them"],
+    technique="runtime monitor: labelled-edit oracle for diff_build, canonical-dump equality after apply / reverse / failed apply, under gcc ASan+UBSan+LSan",
+    level_text="exploration: random labelled edit sets on copies of annotated topologies; build/apply/reverse/XML/rollback checked per pair",
+)
